@@ -1,5 +1,335 @@
 package main
 
-func child0302(in Sx) Sx { return L(S("todo")) }
+// kind 0302: the real fsutil.Receive inside the jail, fed by a scripted (hostile) sender.
+//
+// input : (setup-ops dest packets merge)
+//   setup-ops  ops of kind 0301 (c03_kernel.go) that build the whole jail: the destination with
+//              whatever it already contains, and the sentinel tree outside it
+//   dest       the string handed to Receive (absolute, relative, through a symlink, ...)
+//   packets    (0 stat) STAT | (0) the empty STAT | (1 id data) DATA | (2) FIN | (3 msg) ERR |
+//              (4 id) REQ | (5 type) a packet of an unknown type
+//   merge      ReceiveOpt.Merge
+// output: (class t0 destreal before after)
+//   class      0 Receive returned nil | 1 it returned an error | 2 it did not return although the
+//              sender had closed the stream (it is then cancelled) | 3 the receiver process died
+//              in a "closed channel" panic | >= 8 the harness could not run the case
+//   t0         time stamp taken before anything ran: mtimes >= t0 were written by the kernel
+//   destreal   path of the directory dest resolved to before the run, relative to the jail root
+//   before, after   RAW lstat snapshots of the whole jail, taken before / after the Receive call:
+//              (path ino nlink type perm uid gid mtime ctime rdev target xattrs content), the root
+//              itself as path "", directory before contents, siblings bytewise.
+// Everything else (what is outside, what the model predicts) is decided in Glue/C03G.v.
+//
+// Determinism.  Receive is concurrent (receive loop, diff + disk writer, one finisher per
+// requested file).  The scripted sender hands over one packet at a time and then waits until
+// the receiver is QUIESCENT: every goroutine that runs receiver code is parked in a channel
+// operation / wait group (read off runtime.Stack under stop-the-world).  A goroutine parked
+// in a select has nothing delivered to it, so at that point everything the packet caused has
+// been done and nothing else will happen before the next packet: the interleaving is the
+// sequential one of Model/DiskWriterFs.v.  No hook in /repo is needed for this.
 
-func genC03Streams(g *Gen) {}
+import (
+	"bytes"
+	"context"
+	"os"
+	"path/filepath"
+	"regexp"
+	"runtime"
+	"sort"
+	"strings"
+	"time"
+
+	"github.com/tonistiigi/fsutil"
+	"github.com/tonistiigi/fsutil/types"
+	"golang.org/x/sys/unix"
+)
+
+// ---------------------------------------------------------------- raw snapshot
+func c03RawEntry(abs, rel string, st *unix.Stat_t) Sx {
+	typ := uint64(st.Mode & unix.S_IFMT)
+	var rdev uint64
+	target := ""
+	var content []byte
+	switch typ {
+	case unix.S_IFLNK:
+		target, _ = os.Readlink(abs)
+	case unix.S_IFREG:
+		content, _ = os.ReadFile(abs)
+	case unix.S_IFCHR, unix.S_IFBLK:
+		rdev = uint64(st.Rdev)
+	}
+	xa := listXattrs(abs)
+	keys := make([]string, 0, len(xa))
+	for k := range xa {
+		keys = append(keys, k)
+	}
+	sort.Strings(keys)
+	xs := make([]Sx, 0, len(keys))
+	for _, k := range keys {
+		xs = append(xs, L(S(k), B(xa[k])))
+	}
+	return L(S(rel), N(st.Ino), N(uint64(st.Nlink)), N(typ), N(uint64(st.Mode&07777)), N(uint64(st.Uid)), N(uint64(st.Gid)),
+		I64(st.Mtim.Sec*1e9+st.Mtim.Nsec), I64(st.Ctim.Sec*1e9+st.Ctim.Nsec), N(rdev), S(target), L(xs...), B(content))
+}
+
+var c03TmpName = regexp.MustCompile(`^\.tmp\.[0-9]{9}$`)
+
+// c03SnapshotRaw walks with lstat only (never through a symlink).  A temporary name of the
+// disk writer (".tmp.<9 digits>", process-wide pseudo random) is reported as ".tmp.0", the
+// name the model uses.
+func c03SnapshotRaw(root string) Sx {
+	var out []Sx
+	add := func(abs, rel string) bool {
+		var st unix.Stat_t
+		if err := unix.Lstat(abs, &st); err != nil {
+			return false
+		}
+		out = append(out, c03RawEntry(abs, rel, &st))
+		return st.Mode&unix.S_IFMT == unix.S_IFDIR
+	}
+	var rec func(abs, rel string)
+	rec = func(abs, rel string) {
+		f, err := os.Open(abs)
+		if err != nil {
+			return
+		}
+		names, _ := f.Readdirnames(-1)
+		f.Close()
+		type nm struct{ real, shown string }
+		ns := make([]nm, len(names))
+		for i, n := range names {
+			ns[i] = nm{n, n}
+			if c03TmpName.MatchString(n) {
+				ns[i].shown = ".tmp.0"
+			}
+		}
+		sort.Slice(ns, func(i, j int) bool { return ns[i].shown < ns[j].shown })
+		for _, n := range ns {
+			a := strings.TrimSuffix(abs, "/") + "/" + n.real
+			r := n.shown
+			if rel != "" {
+				r = rel + "/" + n.shown
+			}
+			if add(a, r) {
+				rec(a, r)
+			}
+		}
+	}
+	if add(root, "") {
+		rec(root, "")
+	}
+	return L(out...)
+}
+
+// ---------------------------------------------------------------- quiescence
+var (
+	c03MarkPkg   = []byte("github.com/tonistiigi/fsutil.")
+	c03MarkGroup = []byte("golang.org/x/sync/errgroup.")
+	c03MarkTramp = []byte("main.c03RecvTrampoline")
+)
+
+// c03Quiescent: no goroutine that runs (or is about to run) receiver code can make a step.
+func c03Quiescent(buf []byte) bool {
+	n := runtime.Stack(buf, true)
+	if n == len(buf) {
+		return false // truncated dump: cannot tell
+	}
+	for _, blk := range bytes.Split(buf[:n], []byte("\n\n")) {
+		if !bytes.Contains(blk, c03MarkPkg) && !bytes.Contains(blk, c03MarkGroup) && !bytes.Contains(blk, c03MarkTramp) {
+			continue
+		}
+		i := bytes.IndexByte(blk, '[')
+		j := bytes.IndexByte(blk, ']')
+		if i < 0 || j < i {
+			return false
+		}
+		state := string(blk[i+1 : j])
+		if k := strings.IndexByte(state, ','); k >= 0 {
+			state = state[:k]
+		}
+		switch state {
+		case "select", "chan receive", "chan send", "semacquire", "sync.WaitGroup.Wait", "sync.Cond.Wait":
+		default:
+			return false
+		}
+	}
+	return true
+}
+
+// waits until the receiver is quiescent or Receive has returned (then also until the
+// goroutines it left behind are gone); false = gave up after the time limit
+func c03Settle(buf []byte, limit time.Duration) bool {
+	deadline := time.Now().Add(limit)
+	for i := 0; ; i++ {
+		if c03Quiescent(buf) {
+			return true
+		}
+		if time.Now().After(deadline) {
+			return false
+		}
+		if i < 20 {
+			runtime.Gosched()
+		} else {
+			time.Sleep(50 * time.Microsecond)
+		}
+	}
+}
+
+func c03RecvTrampoline(ctx context.Context, st fsutil.Stream, dest string, merge bool, started chan<- struct{}, done chan<- error) {
+	close(started) // from here on this goroutine shows the marker frame in every stack dump
+	done <- fsutil.Receive(ctx, st, dest, fsutil.ReceiveOpt{Merge: merge})
+}
+
+func c03Packet(x Sx) *types.Packet {
+	switch x.L[0].Int() {
+	case 0:
+		if len(x.L) == 1 {
+			return &types.Packet{Type: types.PACKET_STAT}
+		}
+		return &types.Packet{Type: types.PACKET_STAT, Stat: SxStat(x.L[1])}
+	case 1:
+		return &types.Packet{Type: types.PACKET_DATA, ID: uint32(x.L[1].U64()), Data: append([]byte{}, x.L[2].B...)}
+	case 2:
+		return &types.Packet{Type: types.PACKET_FIN}
+	case 3:
+		return &types.Packet{Type: types.PACKET_ERR, Data: append([]byte{}, x.L[1].B...)}
+	case 4:
+		return &types.Packet{Type: types.PACKET_REQ, ID: uint32(x.L[1].U64())}
+	default:
+		return &types.Packet{Type: types.Packet_PacketType(int32(x.L[1].U64()))}
+	}
+}
+
+const c03BeforeFile = "c03-before.sx" // in the worker's base directory, outside every jail
+
+func c03WriteBase(name string, data []byte) {
+	fd, err := unix.Openat(c03basefd, name, unix.O_WRONLY|unix.O_CREAT|unix.O_TRUNC, 0600)
+	if err != nil {
+		return
+	}
+	f := os.NewFile(uintptr(fd), name)
+	f.Write(data)
+	f.Close()
+}
+
+func child0302(in Sx) Sx {
+	unix.Unlinkat(c03basefd, c03BeforeFile, 0)
+	t0 := time.Now().UnixNano() - 2e9
+	for _, op := range in.L[0].L {
+		c03ExecOp(op, t0)
+	}
+	unix.Chdir("/")
+	dest := in.L[1].Str()
+	real, err := filepath.EvalSymlinks(dest)
+	if err != nil {
+		return L(N(8), S("dest: "+err.Error()))
+	}
+	if real, err = filepath.Abs(real); err != nil {
+		return L(N(8), S("dest: "+err.Error()))
+	}
+	real = strings.TrimPrefix(real, "/")
+	before := c03SnapshotRaw("/")
+	head := L(N(uint64(t0)), S(real), before)
+	// kept outside the jail: a receiver that dies in a panic takes this process with it, and
+	// the next worker finishes the case from here (c03Post0302)
+	c03WriteBase(c03BeforeFile, []byte(head.String()))
+
+	ctx, cancel := context.WithCancel(context.Background())
+	defer cancel()
+	sp := NewStreamPair(ctx, 4)
+	done := make(chan error, 1)
+	go func() { // everything the receiver sends (REQ, FIN, ERR) is read and dropped
+		for {
+			var p types.Packet
+			if sp.A.RecvMsg(&p) != nil {
+				return
+			}
+		}
+	}()
+	started := make(chan struct{})
+	go c03RecvTrampoline(ctx, sp.B, dest, in.L[3].IsTrue(), started, done)
+	<-started
+
+	buf := make([]byte, 1<<20)
+	class := -1
+	var rerr error
+	returned := false
+	poll := func() {
+		if !returned {
+			select {
+			case rerr = <-done:
+				returned = true
+			default:
+			}
+		}
+	}
+	if !c03Settle(buf, 5*time.Second) {
+		class = 10
+	}
+	for _, x := range in.L[2].L {
+		poll()
+		if returned || class >= 0 {
+			break
+		}
+		if err := sp.A.SendMsg(c03Packet(x)); err != nil {
+			break
+		}
+		if !c03Settle(buf, 5*time.Second) {
+			class = 10 // never quiescent: reported, not guessed
+		}
+	}
+	sp.A.CloseSend()
+	if class < 0 && !c03Settle(buf, 5*time.Second) {
+		class = 10
+	}
+	poll()
+	if class < 0 {
+		switch {
+		case !returned:
+			if os.Getenv("C03DEBUG") != "" {
+				n := runtime.Stack(buf, true)
+				c03WriteBase("c03-debug.txt", buf[:n])
+			}
+			class = 2 // quiescent, stream closed, and Receive still has not returned
+		case rerr == nil:
+			class = 0
+		default:
+			class = 1
+		}
+	}
+	cancel()
+	if !returned {
+		select {
+		case rerr = <-done:
+		case <-time.After(5 * time.Second):
+			class = 11
+		}
+	}
+	sp.TearDown(nil)
+	c03Settle(buf, 2*time.Second)
+	after := c03SnapshotRaw("/")
+	return L(NI(class), head.L[0], head.L[1], before, after)
+}
+
+// c03Post0302 finishes a case whose worker died inside Receive: the jail is still on disk.
+func c03Post0302(class int) Sx {
+	unix.Fchdir(c03basefd)
+	unix.Chroot(".")
+	data, err := os.ReadFile(c03BeforeFile)
+	if err != nil {
+		return L(N(9), S("no before file"))
+	}
+	head, err := ParseSx(string(data))
+	if err != nil || len(head.L) != 3 {
+		return L(N(9), S("bad before file"))
+	}
+	if err := unix.Chroot("j"); err != nil {
+		return L(N(9), S("jail gone"))
+	}
+	unix.Chdir("/")
+	after := c03SnapshotRaw("/")
+	unix.Fchdir(c03basefd)
+	unix.Chroot(".")
+	os.RemoveAll("j")
+	return L(NI(class), head.L[0], head.L[1], head.L[2], after)
+}
